@@ -9,10 +9,18 @@ Engines: ``_c06_ctor.CtorFlow`` (E3: constructor / attribute flow per concrete c
 ``_c06_sym.SymExec`` (path-enumerating symbolic executor producing canonical expression trees:
 locals, temporaries, keyword-vs-positional passing, commutative operand order and extracted
 repo-local helpers do not change a term).  Nothing is matched on source text.
+
+Verdict discipline: a role / option obligation is a VIOLATION only when the actual is *another* datum
+(another role's parameter, a literal, an attribute holding something else, nothing at all); the expected
+datum wrapped in an operation outside the transfer table is UNDECIDED.
+
+Not decided: numeric values, shapes and broadcasting (e.g. whether ``sample_weight * np.log(x)`` in
+``_weighted_geometric_mean`` lines up a 1-D weight vector with the 2-D errors), input validation guards,
+sklearn's own aggregators.
 """
 import ast
 
-from ..index import AnalysisError, ClassInfo
+from ..index import AnalysisError
 from .. import astq
 from . import _c06_sym as S
 from ._c06_ctor import CtorFlow, PARAM, CONST
@@ -86,11 +94,10 @@ class World:
         self.identity_note = []
         sym = repo.resolve_name(self.fmod, "check_series")
         if sym is not None and sym.kind == "func" and self.cf.is_identity(sym.module, sym.target):
-            identity.add(sym.dotted)
             self.identity_note.append(sym.dotted)
         self.ex = S.SymExec(repo, identity=identity, transfers={CHECK_REG: _check_reg_targets},
-                            keep=lambda d: d in keep, inline_modules={FMOD})
-        self.ex_plain = S.SymExec(repo)
+                            keep=lambda d: d in keep, inline_modules={FMOD}, identity_pred=self.cf.is_identity)
+        self.ex_plain = S.SymExec(repo, identity=identity, identity_pred=self.cf.is_identity)
         self.eps = self.ex.module_const(self.fmod, "EPS")
         self.base = repo.cls(CL + ":_MetricFunctionWrapper")
         self._paths = {}
@@ -116,6 +123,20 @@ def _check_reg_targets(pos, kw):
     if len(b) != 3 or len(pos) > 3:
         return NotImplemented
     return ("tuple", (("k", "<y_type>"), b["y_true"], b["y_pred"], b["multioutput"]))
+
+
+def role_verdict(got, want):
+    """True: ``got`` is exactly ``want``; False: it is something else (another role's data, a constant,
+    nothing); None: ``want`` wrapped in an operation outside the transfer table (cannot decide)."""
+    if got == want:
+        return True
+    if got is None:
+        return False
+    data = [P(r) for r in ROLES + ("y_train", "horizon_weight", "multioutput")]
+    seen = {d for d in data if S.mentions(got, d)}
+    if seen == {want} and got[0] == "call" and not S.has_unknown(got):
+        return None
+    return False
 
 
 # =========================================================================================
@@ -277,6 +298,7 @@ def check_wrapper(ctx, w, c, res, fdotted, fmod, fdef):
     normal = [p for p in paths if p.outcome != "raise"]
     bindings = []
     bad_ret = None
+    opaque = None
     for p in normal:
         v = p.value
         if p.outcome != "return" or v[0] != "call" or v[1] not in (("sattr", w.func_attr), F(fdotted)):
@@ -293,16 +315,22 @@ def check_wrapper(ctx, w, c, res, fdotted, fmod, fdef):
         else:
             for i, a in enumerate(pos):
                 if a and a[0] == "*":
-                    b["!extra"].append("*args")
+                    opaque = "*%s" % show(a[1])
                 elif i < len(fparams):
                     b[fparams[i]] = a
                 else:
                     b["!extra"].append(show(a))
+            expanded = []
             for kk, vv in kw:
+                if kk == "**" and vv[0] == "dict" and all(x[0] == "k" and isinstance(x[1], str) for x, _ in vv[1]):
+                    expanded.extend((x[1], y) for x, y in vv[1])
+                else:
+                    expanded.append((kk, vv))
+            for kk, vv in expanded:
                 if kk == "**":
                     b["!kwargs"] = b["!kwargs"] or (vv == own_kwargs)
                     if vv != own_kwargs:
-                        b["!unknown"].append("**" + show(vv))
+                        opaque = "**%s" % show(vv)
                 elif kk in fparams or f_kwargs:
                     if kk in b:
                         b["!extra"].append("%s given twice" % kk)
@@ -315,6 +343,10 @@ def check_wrapper(ctx, w, c, res, fdotted, fmod, fdef):
               "%s.__call__ does not return the value of the wrapped function %s: returns %s"
               % (k.name, fdotted.rpartition(".")[2], bad_ret), loc)
     if not bindings:
+        return
+    if opaque is not None:
+        ctx.undecided("R2", "%s:binding" % name, "%s.__call__ passes %s: actual arguments cannot be bound statically"
+                      % (k.name, opaque), loc)
         return
     fshort = fdotted.rpartition(".")[2]
     extra = [x for b in bindings for x in b["!extra"]]
@@ -333,7 +365,8 @@ def check_wrapper(ctx, w, c, res, fdotted, fmod, fdef):
     for p in call_params:
         if p not in fparams and p not in ("y_true", "y_pred"):
             continue
-        good = all(b.get(p) == P(p) for b in bindings)
+        verdicts = [role_verdict(b.get(p), P(p)) for b in bindings]
+        good = False if False in verdicts else (None if None in verdicts else True)
         got = sorted({show(b[p]) if p in b else "<nothing>" for b in bindings})
         ctx.check(good, "R2", "%s:role:%s" % (name, p), "%s -> %s of %s" % (p, p, fshort),
                   "caller's %s is not what %s receives as %s (receives %s)" % (p, fshort, p, ", ".join(got)), loc)
@@ -347,19 +380,49 @@ def check_wrapper(ctx, w, c, res, fdotted, fmod, fdef):
                   % (fshort, p, k.name), loc)
     # options: stored unchanged and forwarded as self.<attribute holding that option>
     for opt in res.params:
-        ctx.check(res.holds_param(opt), "R2", "%s:stored:%s" % (name, opt), "self.%s holds the constructor argument" % opt,
+        av = res.strip_ident(res.attrs.get(opt))
+        if res.holds_param(opt):
+            stored = True
+        elif av is None or av[0] in ("const", "param", "sym", "not") or \
+                (av[0] == "mixed" and PARAM(opt) not in [res.strip_ident(x) for x in av[1]]):
+            stored = False
+        else:
+            stored = None  # derived from something: cannot prove it equals the argument
+        ctx.check(stored, "R2", "%s:stored:%s" % (name, opt), "self.%s holds the constructor argument" % opt,
                   "constructor argument %r is not what self.%s holds: %r (the object ignores the option it was given)"
                   % (opt, opt, res.attrs.get(opt)), ctx.loc(c.module, c.methods.get("__init__", c.node)))
         if opt not in fparams:
             continue
+        cd, fd = res.defaults.get(opt), fdefaults.get(opt)
+        if cd is not None or fd is not None:
+            if cd is None or fd is None:
+                same = False
+            elif cd[0] == "const" and fd[0] == "k":
+                same = cd[1] == fd[1] and (isinstance(cd[1], bool) == isinstance(fd[1], bool))
+            elif cd[0] == "sym" and fd[0] == "f":
+                same = cd[1] == fd[1]
+            elif (cd[0] in ("const", "sym")) and fd[0] in ("k", "f"):
+                same = False
+            else:
+                same = None
+            ctx.check(same, "R2", "%s:default:%s" % (name, opt), "class and function agree on the default of %s" % opt,
+                      "default of option %r differs: %s(%s=%r) vs %s(%s=%s) -- the object and the function called without "
+                      "the option compute different metrics" % (opt, name, opt, cd[1] if cd else "<required>", fshort, opt,
+                                                                show(fd) if fd else "<required>"),
+                      ctx.loc(c.module, c.methods.get("__init__", c.node)))
         good = True
         why = ""
         for b in bindings:
             v = b.get(opt)
             if v is None:
                 good, why = False, "not forwarded at all (the function's default is used whatever the object was built with)"
-            elif not (v[0] == "sattr" and res.strip_ident(res.attrs.get(v[1])) == PARAM(opt)):
+            elif v[0] == "sattr" and res.strip_ident(res.attrs.get(v[1])) == PARAM(opt):
+                pass
+            elif v[0] in ("sattr", "k", "p", "not", "f") or not any(
+                    x[0] == "sattr" and res.strip_ident(res.attrs.get(x[1])) == PARAM(opt) for x in S.subterms(v)):
                 good, why = False, "forwarded value is %s, not the attribute holding the constructor argument" % show(v)
+            elif good:
+                good, why = None, "forwarded value %s wraps the option in an operation that is not interpreted" % show(v)
         ctx.check(good, "R2", "%s:forward:%s" % (name, opt), "%s=self.%s forwarded" % (opt, opt),
                   "option %r of %s is a parameter of %s but %s" % (opt, name, fshort, why), loc)
     # attributes read exist
@@ -433,25 +496,36 @@ def agg_of(t):
     return family, data, weight, axis, kw, t[1][1]
 
 
+def _unary(t):
+    """(numpy function, argument) for a one-argument numpy ufunc call."""
+    if t[0] == "call" and t[1][0] == "f" and t[1][1].startswith("numpy.") and not t[2] and [k for k, _ in t[3]] == ["x"]:
+        return t[1][1], t[3][0][1]
+    return None
+
+
 def decompose_direct(w, t):
     """final averaging / sqrt / aggregator / zero floor / element-wise term of a direct metric."""
     sh = Shape()
     sh.final = "RAW"
     inner = t
-    if S.is_call_to(t, "numpy.average") and not t[2]:
+    if (S.is_call_to(t, "numpy.average") or S.is_call_to(t, "numpy.mean")) and not t[2]:
         kw = dict(t[3])
         cand = kw.get("a")
-        if cand is not None and set(kw) <= {"a", "weights"}:
+        if kw.get("axis") in (K(0), K(-1)):
+            del kw["axis"]  # the per-output errors are one-dimensional
+        if cand is not None and set(kw) <= ({"a", "weights"} if t[1][1] == "numpy.average" else {"a"}):
             probe = cand
-            if S.is_call_to(probe, "numpy.sqrt") and "x" in kwargs_of(probe):
-                probe = kwargs_of(probe)["x"]
+            if _unary(probe) is not None:
+                probe = _unary(probe)[1]
             if agg_of(probe) is not None:
                 sh.final = kw.get("weights", NONE)
                 inner = cand
     sh.sqrt = False
-    if S.is_call_to(inner, "numpy.sqrt") and set(kwargs_of(inner)) == {"x"}:
-        sh.sqrt = True
-        inner = kwargs_of(inner)["x"]
+    sh.post = None
+    u = _unary(inner)
+    if u is not None and agg_of(u[1]) is not None:
+        sh.post, inner = u
+        sh.sqrt = sh.post == "numpy.sqrt"
     a = agg_of(inner)
     if a is None:
         raise Undecidable("no aggregator call (np.average / np.mean / np.median / _weighted_percentile / gmean / "
@@ -482,11 +556,6 @@ def abstract_agg(t):
         if weight in ("NOSLOT", NONE) or S.mentions(weight, HW):
             return ("AGG", family, abstract_agg(data), axis, tuple(sorted(extra.items())))
     return tuple(abstract_agg(x) for x in t)
-
-
-def branch_paths(paths, which):
-    want = which == "unweighted"
-    return [p for p in paths if p.cond(A_HW_NONE) in (None, want)]
 
 
 def mo_cases(p):
@@ -587,6 +656,10 @@ def _all(ctx, rule, construct, items, ok_detail, loc):
     return True
 
 
+def _both(a, b):
+    return False if (a is False or b is False) else (None if (a is None or b is None) else True)
+
+
 def _condtxt(p):
     return ", ".join("%s=%s" % (show(a), v) for a, v in p.conds if a in (A_HW_NONE, SQ, A_RAW, A_UNI, A_MO_STR, P("symmetric")))
 
@@ -612,7 +685,7 @@ def check_kernel_calls(ctx, w, name, tag, terms, params, loc):
             for q in names:
                 got = kw.get(q, dflt.get(q))
                 if q in ROLES:
-                    roles.append((got == P(q), "%s receives %s as its %s (must be the caller's %s): %s"
+                    roles.append((role_verdict(got, P(q)), "%s receives %s as its %s (must be the caller's %s): %s"
                                   % (short, show(got) if got else "<nothing>", q, q, show(c))))
                 elif q in params:
                     opts.append((got == P(q), "option %s of %s is not forwarded to %s (receives %s)"
@@ -657,7 +730,7 @@ def check_direct(ctx, w, name, fn, agg, toks, normal, params, loc):
         items = []
         for p, sh in sel:
             if tag == "weighted":
-                good = sh.weight == HW
+                good = True if sh.weight == HW else (False if sh.weight == "NOSLOT" else role_verdict(sh.weight, HW))
                 bad = ("horizon_weight is given but the %s aggregator %s" %
                        (sh.family, "takes no weights" if sh.weight == "NOSLOT" else "receives weights=%s" % show(sh.weight)))
             else:
@@ -697,15 +770,17 @@ def check_direct(ctx, w, name, fn, agg, toks, normal, params, loc):
                     items.append((e in (sub(YT, YP), sub(YP, YT)), "error term is %s, expected y_true - y_pred" % show(e)[:160]))
             _all(ctx, "R5", pre + ":base", items, "base error matches the name", loc)
         # R5 square root
-        if "squared" in toks or has_sq or any(sh.sqrt for _, sh in sel):
+        if "squared" in toks or has_sq or any(sh.post for _, sh in sel):
             items = []
             for p, sh in sel:
                 c = p.cond(SQ)
                 if "squared" not in toks or not has_sq:
-                    items.append((not sh.sqrt and not has_sq, "square root / square_root option on a metric whose name has no 'squared'"
+                    items.append((sh.post is None and not has_sq, "square root / square_root option on a metric whose name has no 'squared'"
                                   if "squared" not in toks else "squared metric without a square_root option"))
                 elif c is None:
                     items.append((False, "path [%s] does not depend on square_root (option ignored)" % _condtxt(p)))
+                elif sh.post not in (None, "numpy.sqrt"):
+                    items.append((False, "the aggregate is passed through %s instead of np.sqrt" % sh.post))
                 else:
                     items.append((sh.sqrt == c, "square_root=%s but the result is %s" % (c, "rooted" if sh.sqrt else "not rooted")))
             _all(ctx, "R5", pre + ":sqrt", items, "np.sqrt applied exactly under square_root", loc)
@@ -732,13 +807,15 @@ def check_direct(ctx, w, name, fn, agg, toks, normal, params, loc):
             ob = {x: v for x, v in b.conds if x != A_HW_NONE}
             if all(ob.get(x, v) == v for x, v in oa.items()):
                 pairs.append((a, b))
-    if pairs and any(a.value != b.value for a, b in pairs):
-        items = []
-        for a, b in pairs:
-            ta, tb = abstract_agg(a.value), abstract_agg(b.value)
-            items.append((ta == tb, "weighted and unweighted branches compute different things [%s]: unweighted %s  vs  weighted %s"
-                          % (_condtxt(a), show(a.value)[:220], show(b.value)[:220])))
+    items = []
+    for a, b in pairs:
+        ta, tb = abstract_agg(a.value), abstract_agg(b.value)
+        items.append((ta == tb, "weighted and unweighted branches compute different things [%s]: unweighted %s  vs  weighted %s"
+                      % (_condtxt(a), show(a.value)[:220], show(b.value)[:220])))
+    if items:
         _all(ctx, "R4", "%s:sibling" % name, items, "weighted and unweighted branches agree up to the weights", loc)
+    else:
+        ctx.ok("R4", "%s:sibling" % name, "one expression serves the weighted and the unweighted case", loc, nontrivial=False)
 
 
 def check_delegate(ctx, w, name, fn, agg, toks, normal, params, loc):
@@ -749,11 +826,11 @@ def check_delegate(ctx, w, name, fn, agg, toks, normal, params, loc):
         target = v[1][1]
         items_name.append((target == "sklearn.metrics." + name and not v[2],
                            "%s delegates to %s (expected sklearn.metrics.%s)" % (name, target, name)))
-        items_roles.append((kw.get("y_true") == YT and kw.get("y_pred") == YP,
+        items_roles.append((_both(role_verdict(kw.get("y_true"), YT), role_verdict(kw.get("y_pred"), YP)),
                             "delegate receives y_true=%s, y_pred=%s" % (show(kw.get("y_true", NONE)), show(kw.get("y_pred", NONE)))))
-        items_hw.append((kw.get("sample_weight") == HW, "horizon_weight is not passed as sample_weight (got %s)"
+        items_hw.append((role_verdict(kw.get("sample_weight"), HW), "horizon_weight is not passed as sample_weight (got %s)"
                          % show(kw.get("sample_weight", NONE))))
-        items_mo.append((kw.get("multioutput") == MO, "multioutput is not forwarded (got %s)" % show(kw.get("multioutput", NONE))))
+        items_mo.append((role_verdict(kw.get("multioutput"), MO), "multioutput is not forwarded (got %s)" % show(kw.get("multioutput", NONE))))
         if "squared" in toks:
             items_sq.append((kw.get("squared") == mk_not(SQ), "sklearn's `squared` must be `not square_root`, got %s"
                              % show(kw.get("squared", K(True)))))
@@ -788,9 +865,10 @@ def check_scaled(ctx, w, name, fn, agg, toks, normal, params, loc):
     it = {k: [] for k in ("ratio", "eps", "family", "ntrue", "npred", "nplain", "sqrt", "roles", "hw", "mo")}
     for p in normal:
         v = p.value
-        rooted = False
-        if S.is_call_to(v, "numpy.sqrt") and set(kwargs_of(v)) == {"x"}:
-            rooted, v = True, kwargs_of(v)["x"]
+        rooted, post = False, None
+        if _unary(v) is not None and _ratio(_unary(v)[1], w.eps) is not None:
+            post, v = _unary(v)
+            rooted = post == "numpy.sqrt"
         r = _ratio(v, w.eps)
         if r is None or not all(x[0] == "call" and not x[2] for x in r[:2]):
             it["ratio"].append((None if r is None else False,
@@ -814,14 +892,15 @@ def check_scaled(ctx, w, name, fn, agg, toks, normal, params, loc):
         c = p.cond(SQ)
         if has_sq and "squared" in toks:
             it["sqrt"].append((False, "path does not depend on square_root") if c is None else
+                              (False, "the ratio is passed through %s instead of np.sqrt" % post) if post not in (None, "numpy.sqrt") else
                               (rooted == c, "square_root=%s but the ratio is %s" % (c, "rooted" if rooted else "not rooted")))
         else:
-            it["sqrt"].append((not rooted and not has_sq, "square root on a metric that is not 'squared'"))
-        it["roles"].append((nk.get("y_true") == YT and nk.get("y_pred") == YP,
+            it["sqrt"].append((post is None and not has_sq, "square root on a metric that is not 'squared'"))
+        it["roles"].append((_both(role_verdict(nk.get("y_true"), YT), role_verdict(nk.get("y_pred"), YP)),
                             "%s receives y_true=%s, y_pred=%s" % (base, show(nk.get("y_true", NONE)), show(nk.get("y_pred", NONE)))))
-        it["hw"].append((nk.get("horizon_weight") == HW, "horizon_weight is not forwarded to %s (got %s)"
+        it["hw"].append((role_verdict(nk.get("horizon_weight"), HW), "horizon_weight is not forwarded to %s (got %s)"
                          % (base, show(nk.get("horizon_weight", NONE)))))
-        it["mo"].append((nk.get("multioutput") == MO, "multioutput is not forwarded to %s (got %s)"
+        it["mo"].append((role_verdict(nk.get("multioutput"), MO), "multioutput is not forwarded to %s (got %s)"
                          % (base, show(nk.get("multioutput", NONE)))))
     if _all(ctx, "R5", "%s:scaled:ratio" % name, it["ratio"], "forecast error / max(naive error, EPS)", loc) is not True:
         return
@@ -852,9 +931,9 @@ def check_relative_loss(ctx, w, name, fn, normal, loc):
         nk, dk = dict(num[3]), dict(den[3])
         it["ratio"].append((True, ""))
         it["eps"].append((floored, "benchmark loss is not floored by EPS"))
-        it["pred"].append((nk.get("y_true") == YT and nk.get("y_pred") == YP,
+        it["pred"].append((_both(role_verdict(nk.get("y_true"), YT), role_verdict(nk.get("y_pred"), YP)),
                            "numerator loss receives y_true=%s, y_pred=%s" % (show(nk.get("y_true", NONE)), show(nk.get("y_pred", NONE)))))
-        it["bench"].append((dk.get("y_true") == YT and dk.get("y_pred") == YB,
+        it["bench"].append((_both(role_verdict(dk.get("y_true"), YT), role_verdict(dk.get("y_pred"), YB)),
                             "benchmark loss receives y_true=%s, y_pred=%s (expected y_true, y_pred_benchmark)"
                             % (show(dk.get("y_true", NONE)), show(dk.get("y_pred", NONE)))))
         it["hw"].append((nk.get("horizon_weight") == HW and dk.get("horizon_weight") == HW,
@@ -1033,9 +1112,9 @@ def run(ctx):
     rule_r7(ctx, w)
     # floors: instance counts confirmed by hand on commit 132f3d5 (18 functions, 18 classes, 4 kernels)
     ctx.floor("R1", 91)   # 18 defined + 18 class bindings + 18 wrapped-once + 37 package exports
-    ctx.floor("R2", 200)  # 18 classes x (returns-func, roles, kw-exists, required, stored, forward, attr-written) + protocol
+    ctx.floor("R2", 215)  # 18 classes x (returns-func, roles, kw-exists, required, stored, default, forward, attr-written) + protocol
     ctx.floor("R3", 100)  # 10 direct x (3 multioutput + 2 horizon_weight + kernel calls) + 3 delegates x 3 + 4 scaled x 3 + 4
-    ctx.floor("R4", 7)    # 7 functions with a weighted and an unweighted branch
+    ctx.floor("R4", 10)   # the 10 functions that aggregate themselves (7 of them with separate weighted / unweighted code)
     ctx.floor("R5", 120)
     ctx.floor("R6", 17)
     ctx.floor("R7", 23)   # 18 classes + 2 stored + 3 forwarded
